@@ -12,7 +12,8 @@ KNOWN = os.path.join(VERIF, "known-findings.txt")
 
 # --no-assertion-reach-checks: Kani's per-assertion reachability side checks multiply CBMC's trace
 # output (10-30x slower harnesses); reachability is guarded by explicit kani::cover! instead.
-KANI_FLAGS = ["-Z", "function-contracts", "-Z", "stubbing", "-Z", "unstable-options", "--no-assertion-reach-checks"]
+KANI_ZFLAGS = ["-Z", "function-contracts", "-Z", "stubbing", "-Z", "unstable-options"]
+KANI_FLAGS = KANI_ZFLAGS + ["--no-assertion-reach-checks"]
 # harness kinds, encoded in the harness name:  c32_p_x  c32_b_x  c32_tb_x  c32_tp_x  c32_canary_x
 KIND_RE = re.compile(r"^(c\d{2,3})_(p|b|tp|tb|canary)_(\w+)$")
 QUICK_KINDS = ("p", "b", "canary")
@@ -341,7 +342,7 @@ def make_replay_dir(active=None):
 def native_playback(part, harness_file, test_text, test_name):
     d = make_replay_dir({module_file_key(harness_file): test_text})
     crate_key = part.get("crate_key", part["crate_dir"].replace("-", "_"))
-    cmd = ["cargo", "kani", "playback", "-Z", "concrete-playback"] + KANI_FLAGS
+    cmd = ["cargo", "kani", "playback", "-Z", "concrete-playback"] + KANI_ZFLAGS
     for f in part.get("features", []) + (["verif-xrepo"] if part.get("transform") else []):
         cmd += ["--features", f]
     cmd += ["--", test_name, "--exact"] if False else ["--", test_name]
